@@ -16,6 +16,7 @@ import (
 func VerifReseed(seed int64) {
 	mutRandr.Lock()
 	randr = rand.New(rand.NewSource(seed))
+	verifHostSalt = uint64(seed)
 	mutRandr.Unlock()
 }
 
